@@ -34,6 +34,20 @@ Definition pairs (cs : list call) : list (N * bytes) :=
      forall st cs, session (V H) st cs ->
      forall id a b, In (id, a) (st :: pairs cs) -> In (id, b) (st :: pairs cs) ->
      a = b \/ Collision H                                                                      *)
+(* What IS proved instead (Proofs/Sound.v, Proofs/Fork.v): whenever the OTHER pair of an accepted call
+   is a state of a well-formed history, the client's pair is a state of that same history, and two
+   well-formed histories that share an accepted call agree up to the client's transaction
+   (dual_proof_no_fork) — sessions against servers whose states all come from well-formed histories
+   are consistent.
+
+   NOT proved (statements kept here; they need the position-EXACT soundness of
+   ahtree.VerifyInclusion / VerifyConsistency, which coq/Merkle proves in the membership / prefix
+   forms only):
+     session_consistency_v1_partial : for verify_dual_proof_fixed, the full statement above restricted
+       to sessions in which no call has  source.BlTxID < target.BlTxID < sourceTxID  (what every
+       header a current server emits satisfies: BlTxID = ID - 1);
+     session_consistency_v2 : the full statement above for verify_dual_proof_v2 with sourceTxID <
+       targetTxID in every call.                                                                *)
 Definition session_inconsistent (V : verifier) : Prop :=
   exists st cs id a b,
     session V st cs /\ In (id, a) (st :: pairs cs) /\ In (id, b) (st :: pairs cs) /\ a <> b.
